@@ -9,6 +9,9 @@ NOTE_COMMON = ('Trusted: z3 5.1.0, the symx value classes/numpy facade (validate
                'Bounds, stubs and what lies outside the claim are written into the evidence file by every run.')
 
 CHECKS = {
+ 'C07': dict(
+   text='For all complex source voltages, all factors a, all frequencies and all non-singular system matrices up to 4x4 (larger: the concrete matrix of a catalogue member), homogeneity, superposition and the V/I, Re(VI*)/2 source data are decided by z3 as identities; bounded by the listed geometries and source placements.',
+   design='DESIGN.md 3 (C07)'),
  'C08': dict(
    text='For all load values, frequencies and (for the system-level clauses) all non-singular system matrices within the stated sizes, '
         'z3 finds no input for which a load deviates from the series element it describes; bounded by catalogue geometries and matrix size.',
